@@ -4,11 +4,15 @@
 use crate::common::*;
 use cteepbd::*;
 
-const BASES: [&str; 4] = [
+const BASES: [&str; 6] = [
     "U:CAL:ELECTRICIDAD;P:EL_INSITU",
     "1/U:ACS:EAMBIENTE;1/X;1/O:ACS;D:ACS",
     "U:ACS:ELECTRICIDAD;P:EL_COGEN;U:COGEN:GASNATURAL",
     "2/U:CAL:GASNATURAL;2/U:REF:ELECTRICIDAD;2/X;2/O:CAL;2/O:REF",
+    // DHW supplies that exercise the renewable-fraction code: biomass with declared output next to gas, with
+    // production on the same system; heat pump with declared ambient production and biomass cogeneration
+    "3/U:ACS:BIOMASA;3/O:ACS;3/P:EL_INSITU;U:ACS:GASNATURAL;D:ACS",
+    "1/U:ACS:ELECTRICIDAD;1/U:ACS:EAMBIENTE;1/P:EAMBIENTE;P:EL_COGEN;U:COGEN:BIOMASA;D:ACS",
 ];
 
 pub fn units(tier: &str, seed: u64) -> Vec<String> {
